@@ -179,6 +179,15 @@ func prepareOverlay() (*buildInfo, error) {
 		if err := os.WriteFile(tf, []byte(tst), 0o644); err != nil {
 			return nil, err
 		}
+		if rel == "." || rel == "rangeproof" || rel == "revocation" {
+			ks := strings.ReplaceAll(keysTemplate, "PKGNAME", name)
+			kf := filepath.Join(d, "zz_vp_keys.go")
+			if err := os.WriteFile(kf, []byte(ks), 0o644); err != nil {
+				return nil, err
+			}
+			bi.overlayLoad[filepath.Join(repoDir, rel, "zz_vp_keys.go")] = []byte(ks)
+			replace[filepath.Join(repoDir, rel, "zz_vp_keys.go")] = kf
+		}
 		bi.overlayLoad[filepath.Join(repoDir, rel, "zz_vp_prims.go")] = []byte(src)
 		replace[filepath.Join(repoDir, rel, "zz_vp_prims.go")] = pf
 		replace[filepath.Join(repoDir, rel, "zz_vp_replay_test.go")] = tf
